@@ -1,4 +1,5 @@
 import MV.Props.C15Queues
+import MV.Props.C15Unbounded
 import MV.Lemmas.ConcHistory
 /-!
 # C15 — the histories of the queue models satisfy the judge of the concurrent harness suites
@@ -151,6 +152,159 @@ theorem C15_mpsc_history_ok (progs : List (List Int)) (sched : List MPSC.Act)
   have hcomp := history_complete L P progs.length s.g.popped [s.g.popped] hLeq hQeq hall
   rw [hPeq] at hcomp
   simp [judge, hin, hnd2, hinv, hcomp, hord hq]
+
+/-! ## `buffer.Unbounded` / `channels.UnboundedBacklog` used by concurrent goroutines
+
+Every operation of these buffers is atomic (mutex / one channel operation), so a concurrent run is
+a sequence of `(goroutine, operation)` pairs.  `tputs`: the values put, tagged with the goroutine;
+`trecv`: the values received (`recv`/`take`), tagged with the receiving goroutine. -/
+
+open MV.Model.Unbounded in
+def tputs : List (Nat × Op) → List (Nat × Int)
+  | [] => []
+  | (t, .put v) :: r => (t, v) :: tputs r
+  | _ :: r => tputs r
+
+open MV.Model.Unbounded in
+def trecv (u : MV.Model.Unbounded) : List (Nat × Op) → List (Nat × Int)
+  | [] => []
+  | (t, op) :: r =>
+    (match (MV.Model.Unbounded.step u op).2 with
+      | .val v => [(t, v)]
+      | _ => []) ++ trecv (MV.Model.Unbounded.step u op).1 r
+
+open MV.Model.Unbounded in
+theorem trecv_vals (u : MV.Model.Unbounded) (s : List (Nat × Op)) :
+    (trecv u s).map (·.2) = MV.Spec.ClosableQueue.received (MV.Model.Unbounded.run u (s.map (·.2))) := by
+  induction s generalizing u with
+  | nil => rfl
+  | cons x r ih =>
+    obtain ⟨t, op⟩ := x
+    simp only [trecv, List.map_cons, List.map_append, MV.Model.Unbounded.run]
+    rw [ih, received_cons]
+    congr 1
+    cases (MV.Model.Unbounded.step u op).2 <;> rfl
+
+open MV.Model.Unbounded in
+theorem tputs_accepted (u : MV.Model.Unbounded) (s : List (Nat × Op)) (ho : u.closed = false)
+    (hnc : ∀ x ∈ s, x.2 ≠ Op.close) : uaccepted u (s.map (·.2)) = (tputs s).map (·.2) := by
+  induction s generalizing u with
+  | nil => rfl
+  | cons x r ih =>
+    obtain ⟨t, op⟩ := x
+    have hop : op ≠ Op.close := hnc (t, op) List.mem_cons_self
+    have hr : ∀ x ∈ r, x.2 ≠ Op.close := fun x hx => hnc x (List.mem_cons_of_mem _ hx)
+    have hstay : (MV.Model.Unbounded.step u op).1.closed = false := by
+      obtain ⟨c, closed, backlog⟩ := u
+      simp only at ho; subst ho
+      cases op <;> cases c <;> cases backlog <;>
+        simp_all [MV.Model.Unbounded.step, put, load, recv, MV.Model.Unbounded.close]
+    cases op with
+    | put v => simp [uaccepted, tputs, ho, ih _ hstay hr]
+    | close => exact absurd rfl hop
+    | load => simpa [uaccepted, tputs] using ih _ hstay hr
+    | recv => simpa [uaccepted, tputs] using ih _ hstay hr
+    | take => simpa [uaccepted, tputs] using ih _ hstay hr
+    | isClosed => simpa [uaccepted, tputs] using ih _ hstay hr
+
+/-- **the judged history of a concurrent run of the backlog buffers**: `n` goroutines, any
+interleaving `sched` of their `Put`/`Load`/receive operations (no `Close`), distinct values:
+producer `p` pushed `ofProd (tputs sched) p` (its puts in its program order), goroutine `c` received
+`ofProd (trecv … sched) c`.  No value is received twice, none is invented, every consumer sees every
+producer's values in program order, and once the buffer is empty nothing is lost. -/
+theorem C15_unbounded_history_ok (n : Nat) (sched : List (Nat × MV.Model.Unbounded.Op))
+    (htid : ∀ x ∈ sched, x.1 < n) (hnc : ∀ x ∈ sched, x.2 ≠ MV.Model.Unbounded.Op.close)
+    (hnd : ((tputs sched).map (·.2)).Nodup) :
+    let pushes := (List.range n).map (ofProd (tputs sched))
+    let pops := (List.range n).map (ofProd (trecv MV.Model.Unbounded.new sched))
+    noDup pops = true ∧ noneInvented pushes pops = true ∧ orderKept pushes pops = true ∧
+    (ucontent (MV.Model.Unbounded.exec MV.Model.Unbounded.new (sched.map (·.2))) = [] → judge pushes pops = true) := by
+  intro pushes pops
+  let L := tputs sched
+  let Q := trecv MV.Model.Unbounded.new sched
+  have hfifo := C15_unbounded_fifo_any_use (sched.map (·.2))
+  rw [tputs_accepted _ sched rfl hnc, ← trecv_vals] at hfifo
+  have htL : ∀ x ∈ L, x.1 < n := by
+    intro x hx
+    have : ∀ (s : List (Nat × MV.Model.Unbounded.Op)), (∀ y ∈ s, y.1 < n) → ∀ x ∈ tputs s, x.1 < n := by
+      intro s
+      induction s with
+      | nil => intro _ x hx; cases hx
+      | cons y r ih =>
+        intro hy x hx
+        obtain ⟨t, op⟩ := y
+        have hr := fun z hz => hy z (List.mem_cons_of_mem _ hz)
+        cases op <;> simp only [tputs] at hx
+        case put v =>
+          rcases List.mem_cons.mp hx with rfl | hx'
+          · exact hy (t, .put v) List.mem_cons_self
+          · exact ih hr x hx'
+        all_goals exact ih hr x hx
+    exact this sched htid x hx
+  have hP0 : ∀ i, n ≤ i → ofProd L i = [] := by
+    intro i hi
+    simp only [ofProd, List.map_eq_nil_iff, List.filter_eq_nil_iff]
+    intro x hx
+    have := htL x hx
+    simp; omega
+  have hQsub : (Q.map (·.2)).Sublist (L.map (·.2)) := by
+    rw [← hfifo]; exact List.sublist_append_left _ _
+  have hsub : ∀ c ∈ pops, c.Sublist (Q.map (·.2)) := by
+    intro c hc
+    obtain ⟨j, _, rfl⟩ := List.mem_map.mp hc
+    exact List.Sublist.map _ List.filter_sublist
+  have hpnd : (Q.map (·.2)).Nodup → pops.flatten.Nodup := fun h => split_nodup Q h n
+  -- distinct values overall ⇒ the per-producer family is duplicate-free
+  have hfam : (famFlat (ofProd L) n).Nodup := by
+    have : ∀ m, (famFlat (ofProd L) m).Nodup := by
+      intro m
+      induction m with
+      | zero => simp [famFlat]
+      | succ m ih =>
+        have e : famFlat (ofProd L) (m + 1) = famFlat (ofProd L) m ++ ofProd L m := by
+          simp [famFlat, List.range_succ, List.flatten_append]
+        rw [e, List.nodup_append]
+        refine ⟨ih, (List.Sublist.map _ List.filter_sublist).nodup hnd, ?_⟩
+        intro a ha b hb hab
+        obtain ⟨i, hi, hai⟩ := mem_famFlat.mp ha
+        obtain ⟨x, hx, rfl⟩ := List.mem_map.mp hai
+        obtain ⟨y, hy, rfl⟩ := List.mem_map.mp hb
+        have hx' := List.mem_filter.mp hx
+        have hy' := List.mem_filter.mp hy
+        have := eq_of_nodup_map_snd L hnd x hx'.1 y hy'.1 hab
+        have e1 : x.1 = i := by simpa using hx'.2
+        have e2 : y.1 = m := by simpa using hy'.2
+        rw [this] at e1; omega
+    exact this n
+  obtain ⟨_, h2, h3⟩ := history_safe L (ofProd L) n (Q.map (·.2)) pops hP0 (fun i => List.Sublist.refl _) hfam hQsub hsub hpnd
+  have h4 := history_order L (ofProd L) n (Q.map (·.2)) pops hP0 (fun i => rfl) hfam hQsub hsub
+  have h1 : inputOk pushes = true := by simpa [inputOk, famFlat] using hfam
+  refine ⟨h2, h3, h4, fun hempty => ?_⟩
+  rw [hempty, List.append_nil] at hfifo
+  have hall : ∀ v ∈ Q.map (·.2), v ∈ pops.flatten := by
+    intro v hv
+    obtain ⟨q, hq, rfl⟩ := List.mem_map.mp hv
+    have hlt : q.1 < n := by
+      have : ∀ (u : MV.Model.Unbounded) (s : List (Nat × MV.Model.Unbounded.Op)), (∀ y ∈ s, y.1 < n) →
+          ∀ x ∈ trecv u s, x.1 < n := by
+        intro u s
+        induction s generalizing u with
+        | nil => intro _ x hx; cases hx
+        | cons y r ih =>
+          intro hy x hx
+          obtain ⟨t, op⟩ := y
+          simp only [trecv] at hx
+          rcases List.mem_append.mp hx with hx' | hx'
+          · have ht := hy (t, op) List.mem_cons_self
+            cases ho : (MV.Model.Unbounded.step u op).2 <;> rw [ho] at hx' <;> simp at hx'
+            rw [hx']; exact ht
+          · exact ih _ (fun z hz => hy z (List.mem_cons_of_mem _ hz)) x hx'
+      exact this _ sched htid q hq
+    refine List.mem_flatten.mpr ⟨_, List.mem_map.mpr ⟨q.1, List.mem_range.mpr hlt, rfl⟩, ?_⟩
+    exact List.mem_map.mpr ⟨q, List.mem_filter.mpr ⟨hq, by simp⟩, rfl⟩
+  have h5 := history_complete L (ofProd L) n (Q.map (·.2)) pops (fun i => rfl) hfifo hall
+  simp only [judge, Bool.and_eq_true]
+  exact ⟨⟨⟨⟨h1, h2⟩, h3⟩, h5⟩, h4⟩
 
 /-- non-vacuity: the judge rejects a reordered, a duplicated, an invented and a lost value -/
 example : judge [[1, 2], [11]] [[1, 11], [2]] = true ∧ judge [[1, 2], [11]] [[2, 11, 1]] = false ∧
